@@ -1671,8 +1671,60 @@ func (ex *Exec) appendOp(st *State, cc *ssa.CallCommon, args []Val, pos string) 
 	}
 	capT := p.Fresh("cap", IntSort)
 	ex.assume(st, p.And(p.Ge(capT, total), p.Le(capT, p.Int(1<<40))))
-	ex.assumptions["append always reallocates (the old slice value must be dead after x = append(x, …))"] = true
-	return p.Mk(ex.tm.SliceS, ref, p.Int(0), total, capT)
+	// append is modelled as reallocation. That is exact when nothing else can look at the backing array of the slice
+	// being extended (appendown.go decides that from the SSA). Where that cannot be shown, the exact two-case model is
+	// used: when the capacity suffices the slice grows in place (the cells behind its length in the shared backing
+	// array are overwritten, visible through every alias), otherwise it is reallocated.
+	owned := true
+	if refs := cc.Args[0].Referrers(); refs != nil {
+		for _, r := range *refs {
+			if ci, ok := r.(*ssa.Call); ok && &ci.Call == cc {
+				if okOwn, _ := appendOwnerOK(ci); !okOwn {
+					owned = false
+				}
+			}
+		}
+	}
+	realloc := p.Mk(ex.tm.SliceS, ref, p.Int(0), total, capT)
+	if owned {
+		ex.assumptions["append is modelled as reallocation where the ownership check shows that to be exact (the extended slice is made / carried / stored back here and nothing else keeps it), else by the exact in-place / reallocate case split; a caller's view of a parameter's array beyond its length is not tracked"] = true
+		return realloc
+	}
+	sref, soff, scap := p.Acc(s, 0), p.Acc(s, 1), p.Acc(s, 3)
+	inPlace := p.And(p.Not(p.Eq(sref, p.Int(0))), p.Le(total, scap))
+	oldBacking := p.Select(r, sref)
+	var inArr *Term
+	xseq := ex.sliceSeq(st, xs, el)
+	if m.Op == "int" && m.Int.IsInt64() && m.Int.Int64() <= 8 {
+		inArr = oldBacking
+		for i := int64(0); i < m.Int.Int64(); i++ {
+			inArr = p.Store(inArr, p.Add(p.Add(soff, n), p.Int(i)), p.Select(xseq, p.Int(i)))
+		}
+	} else {
+		inArr = p.Fresh("grown", oldBacking.Sort)
+		i := p.BoundVar("i", IntSort)
+		lo := p.Add(soff, n)
+		ex.assume(st, p.Forall([]*Term{i}, p.Eq(p.Select(inArr, i),
+			p.Ite(p.And(p.Le(lo, i), p.Lt(i, p.Add(lo, m))), p.Select(xseq, p.Sub(i, lo)), p.Select(oldBacking, i))), []*Term{p.Select(inArr, i)}))
+	}
+	if bt, ok := el.Underlying().(*types.Basic); ok && bt.Kind() == types.Uint8 {
+		if sf := ex.P.CS.Specs["bytesOf"]; sf != nil {
+			if cf := ex.P.CS.Specs["catB"]; cf != nil {
+				var view *Term = inArr
+				if !(soff.Op == "int" && soff.Int.Sign() == 0) {
+					view = ex.shiftView(inArr, soff)
+				}
+				whole := ex.specApp(sf, []*Term{view, total}, "")
+				left := ex.specApp(sf, []*Term{oldSeq, n}, "")
+				right := ex.specApp(sf, []*Term{xseq, m}, "")
+				ex.assume(st, p.Implies(inPlace, p.Eq(whole, ex.specApp(cf, []*Term{left, right}, ""))))
+			}
+		}
+	}
+	// r (read before the reallocation was recorded) is the region before the call
+	st.heap[name] = p.Ite(inPlace, p.Store(r, sref, inArr), p.Store(r, ref, newArr))
+	ex.assumptions["append: exact in-place / reallocate case split used for a call whose extended slice may be aliased (writes of in-place growth are not subject to the frame check: they lie behind the length of the extended slice)"] = true
+	return p.Ite(inPlace, p.Mk(ex.tm.SliceS, sref, soff, total, scap), realloc)
 }
 
 func (ex *Exec) copyOp(st *State, cc *ssa.CallCommon, args []Val, pos string) Val {
